@@ -140,6 +140,8 @@ def gen_case(ctx, g):
             row[0] = r.choice(pool[keyk])
         join = g.join({'na': 1, 'nb': 1}, nkeys=1)
         join['lhs'], join['rhs'] = [0], [0]
+        if hdrB is not None:
+            join['hw'] = len(hdrB)
     cx = {'ka': ka, 'kb': kb, 'big': big}
     x = r.random()
     if join is None and x < 0.1:
@@ -156,11 +158,9 @@ def gen_case(ctx, g):
                 items.append(('starb',))
             else:
                 items.append(g.item(cx))
-        if join is not None and not B and join['kind'] == 'left' and hdrB is not None:
-            # kept out (finding S1-F1, a C07 matter, see notes/s1.md): LEFT JOIN with a zero-row join table that has column names:
-            # the output header lists B's names for * / b.* while the null record has no b field at all (max_record_len = 0), so the
-            # frame constructor of DataframeWriter.finish fails with a ValueError; the rows themselves are the model's
-            items = [('stara',) if it[0] in ('star', 'starb') else it for it in items]
+        # LEFT JOIN with a zero-row join frame that has column names is IN (was kept out as finding S1-F1 = D27 until fix c71773a): the
+        # null record has one None per join column name, so * / b.* fill every column the output header lists and DataframeWriter.finish
+        # can build the frame; the model gets the join header's width (Join.widen)
         if r.random() < 0.1:
             # UNNEST over the fields of the record: one output record per field value, typed as in the frame
             items.insert(r.randint(0, len(items)), ('unnest', ('list', [r.choice(g.cols(cx, KINDS)) for _ in range(r.randint(0, 3))]), 'UNNEST'))
